@@ -6,7 +6,12 @@ ROOT=$(cd "$(dirname "$0")" && pwd)
 export VERIF_ROOT="$ROOT"
 cd "$ROOT/harness" || exit 2
 export GOFLAGS=-mod=mod GOPROXY=off GOSUMDB=off GOTOOLCHAIN=local
-cmp -s /repo/go.sum go.sum || cp /repo/go.sum go.sum
+REPO="${VERIF_REPO:-/repo}"
+if [ "$REPO" != /repo ]; then
+	# a snapshot of the repository (vp run --with-repo): point this copy of the harness at it
+	go mod edit -replace "github.com/magisterquis/curlrevshell=$REPO"
+fi
+cmp -s "$REPO/go.sum" go.sum || cp "$REPO/go.sum" go.sum
 BIN=$(mktemp -d "${TMPDIR:-/tmp}/vcheck.XXXXXX") || exit 2
 trap 'rm -rf "$BIN"' EXIT INT TERM
 if ! go build -tags verif -o "$BIN/vcheck" ./cmd/vcheck 2>"$BIN/build.log"; then
